@@ -24,11 +24,13 @@ theorem level_of_valid {level : Int} (h : Model.RMQR.levelIsValid level = true) 
   have h4 := of_decide_eq_true h.2
   exact ⟨level.toNat, by omega, by omega⟩
 
-/-- the shape of an accepted call of `Model.RMQR.new` -/
+/-- the shape of an accepted call of `Model.RMQR.new` (empty payload: the version is the answer of `calcVersion`
+on the empty segment list) -/
 theorem new_cases (level prio : Int) (kanji : Bool) (data : List Nat) (q : QRCode)
     (h : Model.RMQR.new level prio kanji data = .ok q) :
     Model.RMQR.levelIsValid level = true ∧
-    ((data = [] ∧ q = { version := 0, level, mask := 0, segments := [] }) ∨
+    ((data = [] ∧ ∃ v, Model.RMQR.calcVersion level prio [] = .ok (some v) ∧
+        q = { version := v, level, mask := 0, segments := [] }) ∨
      (data ≠ [] ∧ ∃ segs v, dpStep kanji data = .ok segs ∧ Model.RMQR.calcVersion level prio segs = .ok (some v) ∧
         q = { version := v, level, mask := 0, segments := segs })) := by
   unfold Model.RMQR.new at h
@@ -39,9 +41,15 @@ theorem new_cases (level prio : Int) (kanji : Bool) (data : List Nat) (q : QRCod
     refine ⟨by simpa using hlv, ?_⟩
     split at h
     · rename_i he
-      cases h
       left
-      exact ⟨by simpa using he, rfl⟩
+      refine ⟨by simpa using he, ?_⟩
+      rw [if_pos (show Model.RMQR.NEW_EMPTY_USES_PRIORITY = true from rfl)] at h
+      obtain ⟨r, hr, h⟩ := bind_eq_ok h
+      cases r with
+      | none => cases h
+      | some v =>
+        cases h
+        exact ⟨v, hr, rfl⟩
     · rename_i he
       right
       refine ⟨by simpa using he, ?_⟩
@@ -80,6 +88,32 @@ theorem calcVersion_total (level : Nat) (hl : level < 2) (prio : Int) (segs : Li
     exact ⟨r, hr⟩
   · exact ⟨none, calcVersion_bad_prio _ _ _ hp⟩
 
+/-- every version holds the empty segment list -/
+theorem rmFits_nil (level : Nat) (v : Int) : rmFits level [] v := ⟨0, rfl, Nat.zero_le _⟩
+
+/-- no order list is empty -/
+theorem order_head : (List.range 3).all (fun p => ((rmOrder p)[0]?).isSome) = true := by
+  decide +kernel
+
+/-- the empty segment list: `calcVersion` returns the first entry of the order list of the priority -/
+theorem calcVersion_nil (level prio : Nat) (hl : level < 2) (hp : prio < 3) :
+    ∃ v, Model.RMQR.calcVersion (level : Int) (prio : Int) [] = .ok (some v) ∧ (rmOrder prio)[0]? = some v ∧
+      0 ≤ v ∧ v < 32 := by
+  obtain ⟨r, hr, hsome, hnone⟩ := QRV.Props.C05.rmqr_calcVersion_first_fit level prio hl hp []
+  have hhead := forall_lt_of_all order_head prio hp
+  obtain ⟨v0, hv0⟩ := Option.isSome_iff_exists.1 hhead
+  cases r with
+  | none => exact absurd (rmFits_nil level v0) (hnone rfl v0 (List.mem_of_getElem? hv0))
+  | some v =>
+    obtain ⟨_, i, hi, hmin⟩ := hsome v rfl
+    have hi0 : i = 0 := by
+      apply Classical.byContradiction
+      intro hne
+      exact hmin 0 (by omega) v0 hv0 (rmFits_nil level v0)
+    subst hi0
+    obtain ⟨h0, h32⟩ := rm_order_range prio v (List.mem_of_getElem? hi)
+    exact ⟨v, hr, hi, h0, h32⟩
+
 /-- what `rmLen … = some n` says: every segment has a length, `n` is their sum -/
 theorem rmAcc_some (v level : Int) (f : Segment → Nat) : ∀ (segs : List Segment) (a n : Nat),
     segs.foldl (rmAcc v level) (some a) = some n →
@@ -116,8 +150,18 @@ theorem rmqr_new_valid (level prio : Int) (kanji : Bool) (data : List Nat) (hb :
       (∀ s ∈ q.segments, s.data ≠ []) ∧ (kanji = false → ∀ s ∈ q.segments, s.mode ≠ 4) := by
   obtain ⟨hlv, hcase⟩ := new_cases level prio kanji data q h
   obtain ⟨l, hl, rfl⟩ := level_of_valid hlv
-  rcases hcase with ⟨rfl, rfl⟩ | ⟨hne, segs, v, hs, hv, rfl⟩
-  · refine ⟨⟨by simp, ?_, rfl, ?_, ?_⟩, rfl, rfl, ?_, ?_⟩
+  rcases hcase with ⟨rfl, v, hv, rfl⟩ | ⟨hne, segs, v, hs, hv, rfl⟩
+  · have hp : prio = 0 ∨ prio = 1 ∨ prio = 2 := by
+      apply Classical.byContradiction
+      intro hp
+      rw [calcVersion_bad_prio _ _ _ hp] at hv
+      cases hv
+    obtain ⟨p, hp3, rfl⟩ := prio_nat hp
+    obtain ⟨v', hv', _, hv0, hv32⟩ := calcVersion_nil l p hl hp3
+    rw [hv] at hv'
+    cases hv'
+    refine ⟨⟨?_, ?_, rfl, ?_, ?_⟩, rfl, rfl, ?_, ?_⟩
+    · simp only; omega
     · simp only; omega
     · intro c _ s hs; cases hs
     · intro c _; simp
@@ -241,7 +285,11 @@ theorem rmqr_new_no_panic' (level prio : Int) (kanji : Bool) (data : List Nat) :
   · rename_i hlv
     obtain ⟨l, hl, rfl⟩ := level_of_valid (by simpa using hlv)
     split
-    · rfl
+    · rw [if_pos (show Model.RMQR.NEW_EMPTY_USES_PRIORITY = true from rfl)]
+      obtain ⟨r, hr⟩ := calcVersion_total l hl prio []
+      rw [hr]
+      simp only [Out.bind_ok]
+      cases r <;> rfl
     · have hstep := dpStepG_no_panic ((3 + 9) * 6) ((3 + 8) * 6) ((3 + 8) * 6) 1 2 3 4 kanji data
       unfold dpStepG at hstep
       cases hK : (if kanji = true then New.newKanjiSegs [0, 1, 2, 3, 4] data.toArray
